@@ -25,7 +25,7 @@ func init() {
 		ID:    "C20",
 		Level: "exploration",
 		Rule: "harness/c20suite is built as a Go test binary against /repo's working tree. (references) fstest.FS and fstest.File must report no failure for mem.FS and os.FS, repeatedly and under varied execution environments (GOMAXPROCS 1 and 16, -test.parallel 1 and 16, -test.shuffle, the race detector build, -test.count 2..3, the process's local time zone moved to +9h and -11h), and the skip lists they return are compared across runs. (baseline) the deviant wrapper with no deviation must be accepted, also with every error path carrying an outer prefix under Constraints.AllowErrPathPrefix. " +
-			"(deviants) 121 wrappers around mem.FS, each differing in exactly one behaviour (operation x kind: silently nothing, done twice, entry left behind/missing, wrong permission bits, wrong size, wrong bytes, wrong error kind/path/type, late or early EOF, wrong offset, second Close succeeds, stale handle size, listing with missing/duplicate/mis-typed entries (also duplicates only below the root), operations failing with ENOTSUP/EOPNOTSUPP instead of succeeding, a successful call returning a typed-nil error, error paths glued to their allowed prefix without a separator ...), each run in its own process; a counter in the deviating branch shows whether the suite's own scenarios reached it. A reached deviant the suite accepts is a violation. Non-trivial: deviants whose deviating branch was reached; distinct by deviant name",
+			"(deviants) 154 wrappers around mem.FS, each differing in exactly one behaviour (operation x kind: silently nothing, done twice, entry left behind/missing, wrong permission bits, wrong size, wrong bytes, wrong error kind/path/type, late or early EOF, wrong offset, second Close succeeds, stale handle size, listing with missing/duplicate/mis-typed entries (also duplicates only below the root), operations failing with ENOTSUP/EOPNOTSUPP instead of succeeding, a successful call returning a typed-nil error, error paths glued to their allowed prefix without a separator, error paths in another spelling of the right name (foo/, ./foo), a removed name that stays listed as an entry whose Info() says it does not exist, handle entries that deny IsDir beside a correct by-name listing ...), each run in its own process; a counter in the deviating branch shows whether the suite's own scenarios reached it. A reached deviant the suite accepts is a violation. Non-trivial: deviants whose deviating branch was reached; distinct by deviant name",
 		Assumptions: []string{"'differs in any single observable behaviour' is sampled by a finite catalogue", "a deviant whose deviating branch no scenario reaches is reported as unreached, not as a survivor"},
 		NumCases:    func(env *core.Env) int { return 0 },
 		Run:         func(env *core.Env, idx int) core.CaseResult { return core.CaseResult{} },
